@@ -9,7 +9,9 @@ AllFaults == {"underflow", "overflow", "noendchar", "badsubr", "drawfirst", "dee
 LenientFaults == {"pathunderflow"}
 
 \* ---- integer programs (Unit = 1)
-CoarseVals  == {-3000, -1132, -1131, -108, -107, -1, 0, 1, 107, 108, 1131, 1132, 2500}
+\* (the large values let the pen leave the operand range: positions beyond 32000 / 32767 / 65535)
+CoarseVals  == {-3000, -1132, -1131, -108, -107, -1, 0, 1, 107, 108, 1131, 1132, 2500,
+                767, 20000, -20000, 32000, -32000}
 CoarseSVals == {-3, 0, 2, 5, 100}
 CoarseDWs   == {0, 100, 500, 2000}        \* one per DICT integer size class (1, 2, 3 bytes) and absent
 CoarseNWs   == {0, 600, -50, -1200}
@@ -37,6 +39,14 @@ OneSize   == {0}
 ArithFamOps == {"hmoveto", "endchar"}
 TwoVals   == {-2, 5}
 NoFaults  == {}
+OneGlyph  == {1}
+TwoGlyphs == {2}
+ThreeGlyphs == {3}
+\* operators with interpreter-level state that must not leak from one charstring to the next
+StateFeats == {"get", "put", "hstem", "vstemhm", "hintmask", "cntrmask", "random", "callsubr"}
+StorageFeats == {"get", "hstem", "hintmask"}
+FontNGs   == {1, 3}      \* half of the simulated fonts have three glyphs
+FaultNGs  == {1, 2}      \* the faulty glyph alone, or after a well-formed one
 NoExcl    == {}
 MixOnly   == {"mix"}
 AllFeats  == DrawOps \cup StemOps \cup MaskOps \cup ArithOps \cup CallFeats \cup {"base"}
